@@ -2,7 +2,7 @@
 import ast
 
 from .. import terms as T
-from ..lib import (summarise, heap_writes, V, A, normal, raising, cond_str, loc_attr, nested_events, no_inline, props_only, writers_of_attr, calls_named, as_len_test)
+from ..lib import (summarise, heap_writes, V, A, normal, raising, cond_str, loc_attr, nested_events, no_inline, props_only, writers_of_attr, calls_named, as_len_test, len_range_of, strip_ndarray)
 from ..symex import Valuation, Undecided, default_policy
 from ..terms import fmt, ZERO, num
 
@@ -14,6 +14,8 @@ def check(ctx):
     ctx.sub(s2_keys)
     ctx.sub(s3_slots)
     ctx.sub(s4_entry)
+    from . import c19
+    ctx.sub(c19.s1_membership)      # "an asset that enters a dynamic universe later": the universe reports it from its entry instant on, statelessly
 
 
 # ------------------------------------------------------------------------------------------------ S1
@@ -25,15 +27,22 @@ def run_loop_table(ctx):
     import itertools
     marks = {'SimulatedBroker.update': 'broker.update', 'SignalsCollection.update': 'signals.update', 'QuantTradingSystem.__call__': 'qts',
              'BacktestTradingSession._update_equity_curve': 'equity'}
-    for sig_none, et, burn, reb, pr in itertools.product([True, False], ['market_open', 'market_close', 'pre_market', 'post_market'], [None, '<', '=', '>'],
-                                                         [True, False], [True, False]):
+    from fractions import Fraction as Fr
+    # the burn-in ordering, each with concrete instants (in days) so that tests computed FROM the two instants (dates, differences) are decided too:
+    # the same calendar day and different days are both represented
+    burns = [(None, None), ('<', (Fr(80500, 800), Fr(80792, 800))), ('<', (Fr(80700, 800), Fr(80800, 800))), ('=', (Fr(80700, 800), Fr(80700, 800))),
+             ('>', (Fr(80700, 800), Fr(80500, 800))), ('>', (Fr(81300, 800), Fr(80700, 800)))]
+    for sig_none, et, (burn, inst), reb, pr in itertools.product([True, False], ['market_open', 'market_close', 'pre_market', 'post_market'], burns,
+                                                                 [True, False], [True, False]):
         el = 'elem(self.sim_engine)'
         facts = {'settings.PRINT_EVENTS': pr, 'results': False,
                  'BacktestTradingSession._is_rebalance_event(self, %s.ts)' % el: reb, '%s.ts in self.rebalance_schedule' % el: reb}
         order = {}
+        nums = {}
         if burn:
             order[('%s.ts' % el, 'self.burn_in_dt')] = burn
-        val = Valuation(order=order, facts=facts, isnone={'self.signals': sig_none, 'self.burn_in_dt': burn is None}, strs={'%s.event_type' % el: et})
+            nums = {'%s.ts' % el: inst[0], 'self.burn_in_dt': inst[1]}
+        val = Valuation(order=order, facts=facts, isnone={'self.signals': sig_none, 'self.burn_in_dt': burn is None}, strs={'%s.event_type' % el: et}, nums=nums)
 
         def pol(caller, callee, depth):
             # private helpers of the session (burn-in tests etc.) are seen through; the four marked actions stay call events
@@ -58,7 +67,8 @@ def run_loop_table(ctx):
                                 seq.append((marks[c], fmt(a) if a is not None else None))
                 und = [c for c, v, s in b.conds if T.tkey(c) not in ()]
                 acts.add((tuple(seq), b.outcome))
-        out.append((dict(signals=not sig_none, event=et, burn_in=burn, rebalance=reb, print_events=pr), sorted(acts), sorted(set(val.unknown))))
+        out.append((dict(signals=not sig_none, event=et, burn_in=burn, rebalance=reb, print_events=pr,
+                         instants=('event at day %s, burn-in at day %s' % (float(inst[0]), float(inst[1]))) if inst else None), sorted(acts), sorted(set(val.unknown))))
     return out
 
 
@@ -226,20 +236,21 @@ def s3_slots(ctx):
     fn = ctx.fn(qn)
     ps = summarise(ctx, qn, policy=default_policy)
     r = _returns_of(buf(1))
+    r0 = strip_ndarray(r)
     for p in ps:
         if p.outcome != 'return':
             ctx.violation('C16.S3', 'volatility never raises', fn.site(), key='C16.S3|vol|raise')
             continue
-        warm = None
-        for c, v, _ in p.conds:
-            t = as_len_test(c, v)
-            if t is not None and t[0] == r:
-                warm = t[1] == 'empty'
-        if warm is None:
+        lo, hi, seen = len_range_of(p, r0, norm=strip_ndarray)
+        if not seen:
             ctx.undecided('C16.S3', 'volatility branches on whether a return exists yet', fn.site(), cond_str(p)[:200])
             continue
-        if warm:
-            ctx.require(p.value == ZERO, 'C16.S3', 'volatility is 0 while no return exists', fn.site(), fmt(p.value), key='C16.S3|vol|warmup')
+        if p.value == ZERO:
+            # 0 is right with no return, and also with exactly one (the population deviation of a single value is 0)
+            ctx.require(hi is not None and hi <= 1, 'C16.S3', 'volatility is 0 only while at most one return exists', fn.site(),
+                        'returns 0 for windows of %d..%s returns' % (lo, hi if hi is not None else 'any number of'), key='C16.S3|vol|warmup')
+            continue
+        if not ctx.require(lo >= 1, 'C16.S3', 'volatility is 0 while no return exists', fn.site(), fmt(p.value)[:120], key='C16.S3|vol|warmup'):
             continue
         v = p.value
         stds = [s for s in T.subterms(v) if s[0] == 'call' and s[1][0] == 'ext' and s[1][1] in ('STD', 'STD1', 'NANSTD', 'VAR')]
@@ -251,15 +262,18 @@ def s3_slots(ctx):
             if is_ndarray:
                 ctx.require(dd is None or dd == ZERO, 'C16.S3', 'volatility uses the population standard deviation (ndarray.std, ddof=0)', fn.site(), fmt(dd) if dd else None, key='C16.S3|vol|ddof')
                 exp = T.t_mul(('call', ('ext', 'SQRT'), (num(252),), ()), meth_std[0])
-                ctx.require(recv == r and T.teq(v, exp), 'C16.S3', 'volatility = std(simple returns of the window) x sqrt(252)', fn.site(), fmt(v)[:200], key='C16.S3|vol|formula')
+                ctx.require(strip_ndarray(recv) == r0 and T.teq(v, exp), 'C16.S3', 'volatility = std(simple returns of the window) x sqrt(252)', fn.site(), fmt(v)[:200], key='C16.S3|vol|formula')
             else:
                 ctx.require(dd == ZERO, 'C16.S3', 'volatility uses the population standard deviation', fn.site(), 'Series.std() defaults to ddof=1 (sample deviation)', key='C16.S3|vol|ddof')
+                exp = T.t_mul(('call', ('ext', 'SQRT'), (num(252),), ()), meth_std[0])
+                ctx.require(strip_ndarray(recv) == r0 and T.teq(v, exp), 'C16.S3', 'volatility = std(simple returns of the window) x sqrt(252)', fn.site(),
+                            'deviation taken over %s' % fmt(recv)[:160], key='C16.S3|vol|formula')
         elif len(stds) == 1 and stds[0][1][1] == 'STD':
             dd = dict(stds[0][3]).get('ddof')
             ctx.require(dd is None or dd == ZERO, 'C16.S3', 'volatility uses the population standard deviation (ddof=0)', fn.site(), 'ddof=%s' % (fmt(dd) if dd else None),
                         key='C16.S3|vol|ddof')
-            exp = T.t_mul(('call', ('ext', 'SQRT'), (num(252),), ()), ('call', ('ext', 'STD'), (r,), tuple(stds[0][3])))
-            ctx.require(T.teq(v, exp), 'C16.S3', 'volatility = std(simple returns of the window) x sqrt(252)', fn.site(), fmt(v)[:200], key='C16.S3|vol|formula')
+            exp = T.t_mul(('call', ('ext', 'SQRT'), (num(252),), ()), ('call', ('ext', 'STD'), (r0,), tuple(stds[0][3])))
+            ctx.require(T.teq(strip_ndarray(v), exp), 'C16.S3', 'volatility = std(simple returns of the window) x sqrt(252)', fn.site(), fmt(v)[:200], key='C16.S3|vol|formula')
         elif stds:
             ctx.violation('C16.S3', 'volatility uses the population standard deviation', fn.site(), fmt(stds[0])[:80], key='C16.S3|vol|ddof')
         else:
@@ -272,16 +286,15 @@ def s3_slots(ctx):
         if p.outcome != 'return':
             ctx.violation('C16.S3', 'momentum never raises', fn.site(), key='C16.S3|mom|raise')
             continue
-        warm = None
-        for c, v, _ in p.conds:
-            t = as_len_test(c, v)
-            if t is not None and t[0] == r:
-                warm = t[1] == 'empty'
-        if warm is None:
+        lo, hi, seen = len_range_of(p, r0, norm=strip_ndarray)
+        if not seen:
             ctx.undecided('C16.S3', 'momentum branches on whether a return exists yet', fn.site(), cond_str(p)[:200])
             continue
-        if warm:
-            ctx.require(p.value == ZERO, 'C16.S3', 'momentum is 0 while no return exists', fn.site(), fmt(p.value), key='C16.S3|mom|warmup')
+        if p.value == ZERO:
+            ctx.require(hi == 0, 'C16.S3', 'momentum is 0 only while no return exists', fn.site(),
+                        'returns 0 for windows of %d..%s returns' % (lo, hi if hi is not None else 'any number of'), key='C16.S3|mom|warmup')
+            continue
+        if not ctx.require(lo >= 1, 'C16.S3', 'momentum is 0 while no return exists', fn.site(), fmt(p.value)[:120], key='C16.S3|mom|warmup'):
             continue
         v = p.value
         arr = ('call', ('ext', 'ARRAY'), (r,), ())
@@ -293,7 +306,7 @@ def s3_slots(ctx):
             alts.append(T.t_sub(('call', ('ext', 'PROD'), (T.t_add(num(1), rr),), ()), num(1)))
         b = buf(1)
         alts.append(T.t_sub(T.t_div(('sub', b, num(-1)), ('sub', b, num(0))), num(1)))
-        if any(T.teq(v, a) for a in alts):
+        if any(T.teq(strip_ndarray(v), strip_ndarray(a)) for a in alts):
             ctx.holds('C16.S3', 'momentum = compounded simple returns of the window - 1 (= last/first - 1)', fn.site())
         else:
             prods = [s for s in T.subterms(v) if s[0] == 'call' and s[1][0] == 'ext' and s[1][1] in ('CUMPROD', 'PROD', 'CUMSUM', 'SUM', 'MEAN')]
@@ -368,6 +381,36 @@ def s4_entry(ctx):
         ctx.require(ok, 'C16.S4', 'every new member is appended once', e.site, key='C16.S4|append')
     else:
         ctx.undecided('C16.S4', 'update_assets = one universe query, one loop, one append', fn.site(), '%d queries, %d loops, %d appends' % (len(uni), len(loops), len(apps)))
+    # the tracked list may be shared with collaborators (the buffers are constructed on the very same list object): an append through any alias counts
+    aliases = {A('self', 'assets')}
+    for ip in normal(summarise(ctx, 'Signal.__init__', policy=default_policy)):
+        mine = [w for w in heap_writes(ip, 'assets') if w.loc == A('self', 'assets')]
+        holder = {}
+        for w in heap_writes(ip):
+            if w.loc[0] == 'attr' and w.loc[1] == V('self') and w.value is not None and w.value[0] == 'call' and w.value[1][0] == 'ctor':
+                holder[w.value[1][1]] = w.loc
+        for e in ip.flat_events():
+            if e.kind == 'call' and (e.how or '').startswith('ctor:') and mine:
+                cname = e.how[5:]
+                for pname, val in e.args.items():
+                    if val is mine[-1].value or val == mine[-1].value:
+                        # does the constructor keep the very list it was given?
+                        for cp_ in normal(summarise(ctx, cname + '.__init__', policy=no_inline)):
+                            for w in heap_writes(cp_):
+                                if w.value == V(pname) and w.loc[0] == 'attr' and w.loc[1] == V('self'):
+                                    for h in [x for x in heap_writes(ip) if x.value is not None and x.value[0] == 'call' and any(c == cname + '.__init__' for c in e.callee)
+                                              and fmt(x.value).startswith(cname + '(')]:
+                                        aliases.add(('attr', h.loc, w.loc[2]))
+    ps2 = normal(summarise(ctx, 'Signal.update_assets', policy=lambda a, b, d: d <= 8 and (default_policy(a, b, d) or b.path.startswith('qstrader/signals/'))))
+    for p2 in ps2:
+        for lp in [e for e in p2.events if e.kind == 'loop']:
+            for b in lp.paths:
+                n_app = [e for e in b.flat_events() if e.kind == 'write' and e.how in ('mut:append', 'mut:extend', 'mut:insert') and e.loc in aliases]
+                if any(e.kind == 'write' and e.how == 'mut:append' and e.loc == A('self', 'assets') for e in b.flat_events()) or len(n_app) > 0:
+                    ctx.require(len(n_app) == 1, 'C16.S4', 'a new member enters the tracked list exactly once, counting every alias of that list', n_app[-1].site if n_app else lp.site,
+                                'the list object is written %d times per new member: %s' % (len(n_app), ['%s at %s' % (fmt(e.loc), e.site) for e in n_app]),
+                                key='C16.S4|append-alias')
+    ctx.note('C16.S4: aliases of the tracked asset list: %s' % sorted(fmt(a) for a in aliases))
     # a new asset starts with an empty window: buffers created on first append are fresh deques (S2 writer) and nothing back-fills them
     qn = 'AssetPriceBuffers.append'
     ps = summarise(ctx, qn, policy=default_policy)
